@@ -57,7 +57,9 @@ class XvcRepo:
     def write(self, rel, data, mtime_ns=None):
         p = self.path(rel)
         os.makedirs(os.path.dirname(p), exist_ok=True)
-        if os.path.lexists(p) and (os.path.islink(p) or not os.access(p, os.W_OK)):
+        # a user write replaces the entry: a symlink or a read-only (hard-linked) file is unlinked
+        # first (we run as root, for whom the permission bits alone would not stop an in-place write)
+        if os.path.lexists(p) and (os.path.islink(p) or not (os.lstat(p).st_mode & 0o200)):
             os.unlink(p)
         with open(p, "wb") as fh:
             fh.write(data if isinstance(data, bytes) else data.encode())
